@@ -901,6 +901,19 @@ class Model:
         for o in self.origins_of(scope, e, depth + 1):
             if o[0] == "container":
                 out |= self.elem_origins(o[1], o[2], depth + 1, for_subscript)
+                # a container created empty and filled through its variable (x = {}; x[k] = v / x.append(v)):
+                # follow the variable it was bound to in the creating scope
+                try:
+                    par = o[1].module.parent.get(o[2]) if hasattr(o[1], "module") else None
+                except Exception:
+                    par = None
+                tgt = None
+                if isinstance(par, ast.Assign) and len(par.targets) == 1 and isinstance(par.targets[0], ast.Name) and par.value is o[2]:
+                    tgt = par.targets[0].id
+                elif isinstance(par, ast.AnnAssign) and isinstance(par.target, ast.Name) and par.value is o[2]:
+                    tgt = par.target.id
+                if tgt is not None and not (isinstance(e, ast.Name) and e.id == tgt and scope is o[1]):
+                    out |= self.elem_origins(o[1], ast.copy_location(ast.Name(id=tgt, ctx=ast.Load()), o[2]), depth + 1, for_subscript)
             elif o[0] == "tuple":
                 for el in o[1]:
                     out |= el
